@@ -1538,7 +1538,11 @@ def convert_from_interleaved(args):
     eq = ",".join("".join(symbol_map[ix] for ix in term) for term in inputs)
     if nargs % 2 == 1:
         # has output specified
-        eq += f"->{''.join(symbol_map[ix] for ix in args[-1])}"
+        eq += "->" + "".join(
+            # n.b. like numpy, an ellipsis might appear in the output only
+            "..." if ix is ... else symbol_map[ix]
+            for ix in args[-1]
+        )
     else:
         # implicit output: like numpy, order by the labels themselves, rather
         # than by the symbols (assigned in order of appearance) they map to
